@@ -12,11 +12,11 @@ import RV.Gen.C05Descriptors
       compare a b = equal  ↔  every persisted non-walltime field of a and b is bitwise equal
                               once pointer-valued members are disregarded
   It is FALSE of the code as it exists, for three reasons that the theorems below isolate:
-    (F21) particle doubles are compared with C `!=`: a NaN makes a simulation unequal to itself, +0.0 and -0.0
+    (C17-N1) particle doubles are compared with C `!=`: a NaN makes a simulation unequal to itself, +0.0 and -0.0
           compare equal although the bits differ          → `c17_nan_unequal_to_itself`, `c17_double_compare`
     (F5)  payloads other than `particles` are compared with memcmp although some embed pointers
           (reb_variational_configuration.sim)            → `c17_table_memcmp_pointer_payloads`
-    (F20) ri_whfast.p_jh is memcmp'd including never-initialised members (real-code search only)
+    (C05-N3) ri_whfast.p_jh is memcmp'd including never-initialised members (real-code search only)
 -/
 set_option linter.unusedVariables false
 namespace RV.Persist
@@ -49,7 +49,7 @@ theorem c17_memberwise_exact (specs : List CmpSpec) (d : Desc) (k : Nat) (c : Cm
         memberNe m (slice a (i * c.size) c.size) (slice b (i * c.size) c.size) = false :=
   payloadDiffer_memberwise specs d k c a b h hs
 
-/-- what C `!=` on doubles decides (F21): false iff neither operand is NaN and the bit patterns are equal or both
+/-- what C `!=` on doubles decides (C17-N1): false iff neither operand is NaN and the bit patterns are equal or both
     are zeros of either sign -/
 theorem c17_double_compare (a b : Bytes) :
     f64Ne a b = false ↔ isNaN64 (leNat a) = false ∧ isNaN64 (leNat b) = false ∧
@@ -65,7 +65,7 @@ theorem c17_memberwise_ignores_pointers (specs : List CmpSpec) (d : Desc) (k : N
       payloadDiffer specs (some d) a b :=
   payloadDiffer_fillSlots specs d k c slots fa fb a b h hs hclear hpos
 
-/-- **a stream equals itself** — under the hypothesis (F21) that no member-wise compared double is a NaN.
+/-- **a stream equals itself** — under the hypothesis (C17-N1) that no member-wise compared double is a NaN.
     The statement without that hypothesis is false: see `c17_nan_unequal_to_itself`. -/
 theorem c17_compare_self_partial (sp : Special) (specs : List CmpSpec) (tbl : List Desc) (fs : List Field)
     (hn : ((body sp fs).map (·.1)).Nodup)
@@ -77,9 +77,9 @@ theorem c17_compare_self_partial (sp : Special) (specs : List CmpSpec) (tbl : Li
 /-- **a simulation equals its own copy** (copy = save + load into a fresh simulation at another address, including
     the loader's fix-ups), for every table meeting the decidable side conditions `TableOK` / `FixOK`, every
     well-formed source and every fresh `init` — under the explicit hypotheses that name the findings:
-    `hvar` (F5) the source has no variational configuration, `hclean` (F21) no emitted payload differs from itself
+    `hvar` (F5) the source has no variational configuration, `hclean` (C17-N1) no emitted payload differs from itself
     (false only for a NaN in a particle double compared with `!=`).  The full statement (without `hvar`, `hclean`)
-    is false of the unchanged tree; after the repairs F5 (member-wise var_config) and F21 (bitwise doubles)
+    is false of the unchanged tree; after the repairs F5 (member-wise var_config) and C17-N1 (bitwise doubles)
     `hclean` holds for every source. -/
 theorem c17_copy_equal_partial (psz : Nat) (sp : Special) (specs : List CmpSpec) (tbl : List Desc) (pl vl : ElemLayout)
     (pSim vSim self : Nat) (init s : Sim) (fp : Bool)
